@@ -269,6 +269,11 @@ class PitRun:
                 from ndn.security.signer import DigestSha256Signer
                 kw['app_param'] = self.PARAMS
                 kw['signer'] = DigestSha256Signer()
+                if e % 2 == 1:
+                    # the caller marks the place of the digest itself with a ParametersSha256Digest placeholder (the
+                    # library overwrites its value); the Interest on the wire and the pending entry are the same as
+                    # for the appended component (seed round 6: the entry was kept under the placeholder's value)
+                    name = name + [enc.Component.from_bytes(bytes(32), enc.Component.TYPE_PARAMETERS_SHA256)]
             if e % 2 == 0 and not parameterised:
                 # every second Interest is expressed through ONE InterestParam object that the caller keeps and
                 # overwrites for the next Interest (the parameters of a pending Interest must not follow it)
